@@ -26,7 +26,7 @@ ASSUMPTIONS = [
 COMPONENTS = {'real': ['yldprolog.compiler', 'yldprolog.engine query/register_function/match_dynamic, module-level unify/get_value', 'generated clause code'],
               'stub': ['consumer schedule (enumerate / close / drop / re-run)', 'native predicates built from the fact tables, with raise switches'],
               'oracle': ['twin engine A (all compiled) under the same schedule; identity of the injected exception object; argument types seen by the natives']}
-REQUIRED_PROBES = ('engine_with_earlier_registrations', 'style_decorated', 'style_delegate', 'twin_comparisons', 'native_invocations', 'style_inferred', 'style_explicit', 'style_variadic', 'yield_true', 'yield_false',
+REQUIRED_PROBES = ('late_script_appended_to_native', 'engine_with_earlier_registrations', 'style_decorated', 'style_delegate', 'twin_comparisons', 'native_invocations', 'style_inferred', 'style_explicit', 'style_variadic', 'yield_true', 'yield_false',
                    'raise_fired', 'raise_arrived_same_object', 'native_next_to_dynamic_facts', 'abandon_close', 'abandon_drop')
 TERM_TYPES = {'Atom', 'Variable', 'Functor', 'int', 'str', 'float', 'NoneType', 'bool'}
 
@@ -43,21 +43,30 @@ def gen(seed, tier):
     world['native'] = [x for x in world['native'] if (x[0], x[1]) in called or rng.random() < 0.3]
     for (n, a) in called:
         if rng.random() < 0.5 and not any(x[0] == n and x[1] == a for x in world['native']):
-            world['native'].append([n, a, rng.choice(['inferred', 'explicit', 'variadic', 'decorated', 'prebuilt', 'explicit-varargs', 'delegate']), rng.random() < 0.5])
+            world['native'].append([n, a, rng.choice(['inferred', 'explicit', 'variadic', 'decorated', 'prebuilt', 'explicit-varargs', 'delegate', 'partial', 'bound-method', 'callable-object', 'prebuilt-foreign']), rng.random() < 0.5])
     if not world['native']:
         n, a = rng.choice(called or keys)
-        world['native'] = [[n, a, rng.choice(['inferred', 'explicit', 'variadic', 'decorated', 'prebuilt', 'explicit-varargs', 'delegate']), rng.random() < 0.5]]
+        world['native'] = [[n, a, rng.choice(['inferred', 'explicit', 'variadic', 'decorated', 'prebuilt', 'explicit-varargs', 'delegate', 'partial', 'bound-method', 'callable-object', 'prebuilt-foreign']), rng.random() < 0.5]]
     if world.get('has_n'):
         # the native-only predicate of C03 gets a compiled twin here
         world['facts'] = world['facts'] + [['n', 1, [[['a', 'a']], [['a', 'c']], [['f', 'f', [['v', 0]]]]]]]
-        world['native'] = world['native'] + [['n', 1, rng.choice(['inferred', 'explicit', 'variadic', 'decorated', 'prebuilt', 'explicit-varargs', 'delegate']), rng.random() < 0.5]]
+        world['native'] = world['native'] + [['n', 1, rng.choice(['inferred', 'explicit', 'variadic', 'decorated', 'prebuilt', 'explicit-varargs', 'delegate', 'partial', 'bound-method', 'callable-object', 'prebuilt-foreign']), rng.random() < 0.5]]
         world['has_n'] = False
     if rng.random() < 0.5:
         # natives "next to dynamic facts": make sure some native predicate also has dynamic facts
         n, a = world['native'][0][:2]
         if not any(d[0] == n and d[1] == a for d in world['dynamic']):
             world['dynamic'] = world['dynamic'] + [[n, a, rng.randrange(1, 3)]]
-    return {'world': world, 'faults': 'all', 'warmup': rng.random() < 0.4}
+    late = None
+    if rng.random() < 0.35:
+        # a second script, loaded WITHOUT overwrite into both engines after everything else, that adds clauses to one
+        # of the natively supplied predicates: the native definition must stay first in the chain
+        # (not for a variadic registration: an exact-arity definition from a script rightly takes precedence over it)
+        cands = [x for x in world['native'] if x[2] != 'variadic']
+        if cands:
+            n, a = cands[0][:2]
+            late = [n, a, [[['a', 'late%d' % j]] + [['a', 'x']] * (a - 1) if a else [] for j in range(rng.randrange(1, 3))]]
+    return {'world': world, 'faults': 'all', 'warmup': rng.random() < 0.4, 'late': late}
 
 
 sample_view = c03.sample_view
@@ -81,6 +90,18 @@ def execute(plan):
         return log.result(discard=str(d))
     if plan.get('warmup'):
         log.count('engine_with_earlier_registrations')
+    if plan.get('late'):
+        from yldprolog.compiler import compile_prolog_from_string
+        n_, a_, rows_ = plan['late']
+        try:
+            import io, contextlib
+            with contextlib.redirect_stderr(io.StringIO()):
+                code_ = compile_prolog_from_string(progs.fact_source(n_, rows_) + '\n')
+            ypA.load_script_from_string(code_, fn='<sim:late>', overwrite=False)
+            ypB.load_script_from_string(code_, fn='<sim:late>', overwrite=False)
+            log.count('late_script_appended_to_native')
+        except Exception:
+            return log.result(discard='late-script')
     name = world['query'][0]
     shape = core.short_hash((world['rules'], world['native']))
     for n_, a_, style, yv in world['native']:
